@@ -20,28 +20,29 @@ import (
 )
 
 type Select struct {
-	From   string `json:"from"`    // first statement of the range (text prefix)
-	To     string `json:"to"`      // last statement of the range (text prefix); empty = same as From
-	Until  string `json:"until"`   // with From: first statement AFTER the range (text prefix), in the same block
-	BodyOf string `json:"body_of"` // statements of the body of the loop/if matched
-	Before string `json:"before"`  // all statements of the enclosing block before the match
-	After  string `json:"after"`   // all statements of the enclosing block after the match
-	Nth    int    `json:"nth"`     // use the n-th match (0 = must be unique)
-	Count  int    `json:"count"`   // with After: only the next Count statements
-	ToNth  int    `json:"to_nth"`
+	From     string `json:"from"`      // first statement of the range (text prefix)
+	To       string `json:"to"`        // last statement of the range (text prefix); empty = same as From
+	Until    string `json:"until"`     // with From: first statement AFTER the range (text prefix), in the same block
+	BodyOf   string `json:"body_of"`   // statements of the body of the loop/if matched
+	HeaderOf string `json:"header_of"` // the for statement matched with its body replaced by an iteration counter (zzHeaderCount, stops after zzHeaderLimit)
+	Before   string `json:"before"`    // all statements of the enclosing block before the match
+	After    string `json:"after"`     // all statements of the enclosing block after the match
+	Nth      int    `json:"nth"`       // use the n-th match (0 = must be unique)
+	Count    int    `json:"count"`     // with After: only the next Count statements
+	ToNth    int    `json:"to_nth"`
 }
 
 type Region struct {
 	Name   string   `json:"name"`
-	Func   string   `json:"func"`   // FuncDecl name, or Type.Method
-	Select Select   `json:"select"` // which statements
+	Func   string   `json:"func"`       // FuncDecl name, or Type.Method
+	Select Select   `json:"select"`     // which statements
 	Alt    []Select `json:"select_alt"` // fall-back anchors (tried in order when the primary one no longer matches)
 	ZeroOK []string `json:"zero_ok"`    // free variables that may be read although the harness does not supply them (zero value is the intended input)
 	Writes []string `json:"writes"`     // fingerprint recorded on the unchanged tree: assigned lvalues and called functions;
 	// statements selected through a fall-back anchor must still cover them, else the region counts as not found
 	usedAlt bool
-	Expose []string `json:"expose"` // variables declared inside the region to hand out through pointers
-	Params []string `json:"params"` // optional fixed parameter order of the generated function; free variables
+	Expose  []string `json:"expose"` // variables declared inside the region to hand out through pointers
+	Params  []string `json:"params"` // optional fixed parameter order of the generated function; free variables
 	// not listed become zero-initialised locals (keeps the harness compiling when the code gains a variable)
 }
 
@@ -55,10 +56,11 @@ type Result struct {
 func norm(s string) string { return strings.Join(strings.Fields(s), " ") }
 
 type lifter struct {
-	pkg  *packages.Package
-	fset *token.FileSet
-	src  map[string][]byte
-	auto map[string]Auto
+	pkg            *packages.Package
+	fset           *token.FileSet
+	src            map[string][]byte
+	auto           map[string]Auto
+	needHeaderVars bool
 }
 
 // Auto: what the lifter found for a region on the current tree, used to pin the harness interface
@@ -139,6 +141,9 @@ func Generate(dir string, env []string, regions []Region) (*Result, error) {
 			fmt.Fprintf(&sb, "\t%s %q\n", imports[p], p)
 		}
 		sb.WriteString(")\n\n")
+	}
+	if l.needHeaderVars {
+		sb.WriteString("// iteration counter and limit of loops lifted with header_of (the loop body is replaced by the counter)\nvar zzHeaderCount, zzHeaderLimit int\n\n")
 	}
 	for _, b := range bodies {
 		sb.WriteString(b)
@@ -271,6 +276,7 @@ func (l *lifter) liftOne(r Region, imports map[string]string) (string, string, e
 	var stmts []ast.Stmt
 	var encl ast.Node
 	loopBody := false
+	headerMode := false
 	sel := r.Select
 	switch {
 	case sel.BodyOf != "":
@@ -291,6 +297,20 @@ func (l *lifter) liftOne(r Region, imports map[string]string) (string, string, e
 		default:
 			return "", "", fmt.Errorf("body_of: statement is %T", x)
 		}
+	case sel.HeaderOf != "":
+		m, err := pick(l.findStmt(fd, sel.HeaderOf), sel.Nth, sel.HeaderOf)
+		if err != nil {
+			return "", "", err
+		}
+		encl = m.encl
+		x, ok := m.list[m.idx].(*ast.ForStmt)
+		if !ok {
+			return "", "", fmt.Errorf("header_of: statement is %T", m.list[m.idx])
+		}
+		y := *x
+		y.Body = &ast.BlockStmt{Lbrace: x.Body.Lbrace, Rbrace: x.Body.Lbrace}
+		stmts = []ast.Stmt{&y}
+		headerMode = true
 	case sel.Before != "":
 		m, err := pick(l.findStmt(fd, sel.Before), sel.Nth, sel.Before)
 		if err != nil {
@@ -707,6 +727,10 @@ func (l *lifter) liftOne(r Region, imports map[string]string) (string, string, e
 		body = append(body[:e.off-base], append([]byte(e.text), body[e.end-base:]...)...)
 	}
 
+	if headerMode {
+		body = append(body, []byte("\n\t\tzzHeaderCount++\n\t\tif zzHeaderCount > zzHeaderLimit {\n\t\t\tbreak\n\t\t}\n\t}")...)
+		l.needHeaderVars = true
+	}
 	// signature
 	var params []string
 	for _, obj := range order {
